@@ -102,7 +102,7 @@ def gen_softmax_kw(cfg, rs, allow_temperature=True):
     n = 1 if rs.chance(0.65) else rs.randint(2, len(opts))
     for o in rs.sample(opts, n):
         if o == 'temperature':
-            kw[o] = round(rs.loguniform(0.05, 20.0), 4)
+            kw[o] = rs.choice([0.05, 20.0]) if rs.chance(0.2) else round(rs.loguniform(0.05, 20.0), 4)
         else:
             kw[o] = rs.chance(0.5)
     return kw
@@ -128,8 +128,11 @@ def gen_base_op(cfg, rs, enabled, swarm):
             op['abort'] = rs.randint(1, n_leaf_calls(cfg))
         return op
     if k == 'perturb_arch':
-        styles = ['binary', 'real', 'extreme'] if method == 'pit' else ['gap', 'gap', 'real']
+        styles = ['binary', 'real', 'extreme', 'threshold', 'allzero'] if method == 'pit' else \
+            ['gap', 'gap', 'real', 'gap_large']
         return {'op': 'perturb_arch', 'style': rs.choice(styles)}
+    if k == 'perturb_net':
+        return {'op': 'perturb_net', 'style': rs.choice(['zero_channel', 'tiny_clip', 'bn_var_zero', 'big_weights'])}
     if k == 'set_mode':
         return {'op': 'set_mode', 'mode': rs.choice(['train', 'eval'])}
     if k == 'train_group':
